@@ -1893,15 +1893,211 @@ theorem ipv6exts_rel (start : Nat) (b : Bytes) :
   · rw [if_neg (fun h => hs h.symm), if_neg hs]
     exact loop_rel b _ _ _ _ _ (FreeInv.init none) rfl (Nat.le_refl _)
 
+/-! #### `from_slice` only looks at the bytes it consumes -/
+
+theorem rawSliceLen_take (s : Bytes) (m len : Nat) (h : rawSliceLen s = .ok len) (hm : len ≤ m) :
+    rawSliceLen (s.take m) = .ok len ∧ rawToHeader (s.take m) len = rawToHeader s len := by
+  obtain ⟨e1, e2, e3⟩ := rawSliceLen_ok s len h
+  have hlen : len ≤ (s.take m).length := by simp only [List.length_take]; omega
+  unfold rawextLen at e1
+  refine ⟨?_, ?_⟩
+  · unfold rawSliceLen
+    rw [if_neg (by omega), bAt_take s m 1 (by omega)]
+    simp only
+    rw [if_neg (by omega), e1]
+  · unfold rawToHeader
+    rw [bAt_take s m 0 (by omega), sub_take s m 2 (len - 2) (by omega)]
+
+theorem fragFromSlice_take (s : Bytes) (m : Nat) (f : Frag) (h : fragFromSlice s = .ok f) (hm : 8 ≤ m) :
+    fragFromSlice (s.take m) = .ok f := by
+  have h8 := (decodeFrag_take s f h).1
+  unfold fragFromSlice at h ⊢
+  have hlen : 8 ≤ (s.take m).length := by simp only [List.length_take]; omega
+  rw [if_neg (by omega)] at h ⊢
+  rw [bAt_take s m 0 (by omega), be16_take s m 2 (by omega), bAt_take s m 3 (by omega),
+    be32_take s m 4 (by omega)]
+  exact h
+
+theorem authSliceLen_take (s : Bytes) (m len : Nat) (h : authSliceLen s = .ok len) (hm : len ≤ m) :
+    authSliceLen (s.take m) = .ok len ∧
+      authToHeader (ε := Ext.SliceErr) (s.take m) len = authToHeader s len := by
+  obtain ⟨e1, e2, e3, e4, e5⟩ := authSliceLen_ok s len h
+  have hlen : len ≤ (s.take m).length := by simp only [List.length_take]; omega
+  unfold authLen at e1
+  refine ⟨?_, ?_⟩
+  · unfold authSliceLen
+    rw [if_neg (by omega), bAt_take s m 1 (by omega)]
+    simp only
+    rw [if_neg e5, if_neg (by omega), e1]
+  · unfold authToHeader
+    rw [bAt_take s m 0 (by omega), be32_take s m 4 (by omega), be32_take s m 8 (by omega),
+      sub_take s m 12 (len - 12) (by omega)]
+
+theorem drop_take_sub (s : Bytes) (len m : Nat) : (s.take m).drop len = (s.drop len).take (m - len) := by
+  rw [List.drop_take]
+
+/-- the loop of `Ipv6Extensions::from_slice` only looks at the bytes it consumes: on exactly those bytes
+    it returns the same struct and next ip number (and nothing is left) -/
+theorem fromSliceLoop_take (slice slice' : Bytes) (result : Exts) (rest : Bytes) (next : Nat) :
+    ∀ e n rest', fromSliceLoop slice result rest next = .ok (e, n, rest') →
+      rest'.length ≤ rest.length ∧
+      fromSliceLoop slice' result (rest.take (rest.length - rest'.length)) next = .ok (e, n, []) := by
+  fun_induction fromSliceLoop slice result rest next
+  all_goals intro e n rest' h
+  all_goals try (simp at h; done)
+  case case2 result rest routing hr val hf =>
+    cases h
+    refine ⟨Nat.le_refl _, ?_⟩
+    rw [fromSliceLoop]
+    split
+    · rename_i routing' hr'
+      have : routing' = routing := by rw [hr] at hr'; cases hr'; rfl
+      subst this
+      split
+      · simp
+      · rename_i hv; rw [hf] at hv; cases hv
+    · rename_i hr'; rw [hr] at hr'; cases hr'
+  case case5 result rest routing hr hf len hl header hh ih =>
+    obtain ⟨i1, i2⟩ := ih e n rest' h
+    obtain ⟨e1, e2, e3⟩ := rawSliceLen_ok rest len hl
+    simp only [List.length_drop] at i1 i2
+    refine ⟨by omega, ?_⟩
+    obtain ⟨t1, t2⟩ := rawSliceLen_take rest (rest.length - rest'.length) len hl (by omega)
+    rw [fromSliceLoop]
+    split
+    · rename_i routing' hr'
+      have : routing' = routing := by rw [hr] at hr'; cases hr'; rfl
+      subst this
+      split
+      · rename_i v hv; rw [hf] at hv; cases hv
+      · simp only [t1, t2, hh, drop_take_sub]
+        rw [show rest.length - rest'.length - len = rest.length - len - rest'.length by omega]
+        exact i2
+    · rename_i hr'; rw [hr] at hr'; cases hr'
+  case case6 result rest hr val hd =>
+    cases h
+    refine ⟨Nat.le_refl _, ?_⟩
+    rw [fromSliceLoop]
+    split
+    · rename_i routing' hr'; rw [hr] at hr'; cases hr'
+    · split
+      · simp
+      · rename_i hv; rw [hd] at hv; cases hv
+  case case9 result rest hr hd len hl header hh ih =>
+    obtain ⟨i1, i2⟩ := ih e n rest' h
+    obtain ⟨e1, e2, e3⟩ := rawSliceLen_ok rest len hl
+    simp only [List.length_drop] at i1 i2
+    refine ⟨by omega, ?_⟩
+    obtain ⟨t1, t2⟩ := rawSliceLen_take rest (rest.length - rest'.length) len hl (by omega)
+    rw [fromSliceLoop]
+    split
+    · rename_i routing' hr'; rw [hr] at hr'; cases hr'
+    · split
+      · rename_i v hv; rw [hd] at hv; cases hv
+      · simp only [t1, t2, hh, drop_take_sub]
+        rw [show rest.length - rest'.length - len = rest.length - len - rest'.length by omega]
+        exact i2
+  case case10 result rest routing hr =>
+    cases h
+    refine ⟨Nat.le_refl _, ?_⟩
+    rw [fromSliceLoop]
+    split
+    · simp
+    · rename_i hr'; rw [hr] at hr'; cases hr'
+  case case13 result rest hr len hl header hh ih =>
+    obtain ⟨i1, i2⟩ := ih e n rest' h
+    obtain ⟨e1, e2, e3⟩ := rawSliceLen_ok rest len hl
+    simp only [List.length_drop] at i1 i2
+    refine ⟨by omega, ?_⟩
+    obtain ⟨t1, t2⟩ := rawSliceLen_take rest (rest.length - rest'.length) len hl (by omega)
+    rw [fromSliceLoop]
+    split
+    · rename_i v hr'; rw [hr] at hr'; cases hr'
+    · simp only [t1, t2, hh, drop_take_sub]
+      rw [show rest.length - rest'.length - len = rest.length - len - rest'.length by omega]
+      exact i2
+  case case14 result rest val hf =>
+    cases h
+    refine ⟨Nat.le_refl _, ?_⟩
+    rw [fromSliceLoop]
+    split
+    · simp
+    · rename_i hr'; rw [hf] at hr'; cases hr'
+  case case16 result rest hf header hh ih =>
+    obtain ⟨i1, i2⟩ := ih e n rest' h
+    have h8 := (decodeFrag_take rest header hh).1
+    simp only [List.length_drop] at i1 i2
+    refine ⟨by omega, ?_⟩
+    have t1 := fragFromSlice_take rest (rest.length - rest'.length) header hh (by omega)
+    rw [fromSliceLoop]
+    split
+    · rename_i v hr'; rw [hf] at hr'; cases hr'
+    · simp only [t1, drop_take_sub]
+      rw [show rest.length - rest'.length - 8 = rest.length - 8 - rest'.length by omega]
+      exact i2
+  case case17 result rest val ha =>
+    cases h
+    refine ⟨Nat.le_refl _, ?_⟩
+    rw [fromSliceLoop]
+    split
+    · simp
+    · rename_i hr'; rw [ha] at hr'; cases hr'
+  case case21 result rest ha len hl header hh ih =>
+    obtain ⟨i1, i2⟩ := ih e n rest' h
+    obtain ⟨e1, e2, e3, _, _⟩ := authSliceLen_ok rest len hl
+    simp only [List.length_drop] at i1 i2
+    refine ⟨by omega, ?_⟩
+    obtain ⟨t1, t2⟩ := authSliceLen_take rest (rest.length - rest'.length) len hl (by omega)
+    rw [fromSliceLoop]
+    split
+    · rename_i v hr'; rw [ha] at hr'; cases hr'
+    · simp only [t1, t2, hh, drop_take_sub]
+      rw [show rest.length - rest'.length - len = rest.length - len - rest'.length by omega]
+      exact i2
+  case case22 result rest n h0 h60 h43 h44 h51 =>
+    cases h
+    refine ⟨Nat.le_refl _, ?_⟩
+    rw [fromSliceLoop]
+    · simp
+    all_goals (intro hh; first | exact h0 hh | exact h60 hh | exact h43 hh | exact h44 hh | exact h51 hh)
+
+/-- `Ipv6Extensions::from_slice` on exactly the bytes it consumed gives the same struct and next ip
+    number, and nothing is left -/
+theorem extsFromSlice_take (start : Nat) (b : Bytes) (e : Exts) (n : Nat) (rest : Bytes)
+    (h : Exts.fromSlice start b = .ok (e, n, rest)) :
+    rest.length ≤ b.length ∧ Exts.fromSlice start (b.take (b.length - rest.length)) = .ok (e, n, []) := by
+  unfold Exts.fromSlice at h ⊢
+  by_cases hs : IPV6_HOP_BY_HOP = start
+  · simp only [if_pos hs] at h ⊢
+    cases hl : rawSliceLen b with
+    | error err => rw [hl] at h; cases h
+    | ok len =>
+      rw [hl] at h
+      simp only at h
+      obtain ⟨header, hh⟩ := rawToHeader_ok _ _ hl
+      rw [hh] at h
+      simp only at h
+      obtain ⟨e1, e2, e3⟩ := rawSliceLen_ok b len hl
+      obtain ⟨i1, i2⟩ := fromSliceLoop_take b (b.take (b.length - rest.length)) _ _ _ e n rest h
+      simp only [List.length_drop] at i1 i2
+      refine ⟨by omega, ?_⟩
+      obtain ⟨t1, t2⟩ := rawSliceLen_take b (b.length - rest.length) len hl (by omega)
+      simp only [t1, t2, hh, drop_take_sub]
+      rw [show b.length - rest.length - len = b.length - len - rest.length by omega]
+      exact i2
+  · simp only [if_neg hs] at h ⊢
+    exact fromSliceLoop_take b _ _ _ _ e n rest h
+
 /-- the table for `Ipv6Extensions`: `got` = the bytes the reader gathered for each header, in reading
     order; concatenated they are exactly the bytes in front of `rest`, and decoded header by header
-    (`decodeGot`) they make up the struct `from_slice` returns -/
+    (`decodeGot`) they make up the struct `from_slice` returns - as does `from_slice` itself on exactly those bytes -/
 theorem ipv6exts_table (start : Nat) (pre b : Bytes) :
     match Exts.fromSlice start b with
     | .ok (e, next, rest) =>
       ∃ got, ReadsOk (Reads.ipv6exts start) pre b (b.length - rest.length) { got := got, next := next } ∧
         b = b.take (b.length - rest.length) ++ rest ∧
-        gathered got = b.take (b.length - rest.length) ∧ decodeGot got = some e
+        gathered got = b.take (b.length - rest.length) ∧ decodeGot got = some e ∧
+        Exts.fromSlice start (b.take (b.length - rest.length)) = .ok (e, next, [])
     | .error (.err (.len _)) => ReadsEof (Reads.ipv6exts start) pre b
     | .error (.err (.content c)) =>
       ∃ n, n ≤ b.length ∧ ReadsContent (Reads.ipv6exts start) pre b n (extsErrText c)
@@ -1912,7 +2108,7 @@ theorem ipv6exts_table (start : Nat) (pre b : Bytes) :
     obtain ⟨e, n, rest⟩ := x
     rw [hd] at h
     obtain ⟨got', h1, h2, h3, h4⟩ := h
-    exact ⟨got', readsOk_of_eval h1, h2, by simpa [gathered] using h3, h4⟩
+    exact ⟨got', readsOk_of_eval h1, h2, by simpa [gathered] using h3, h4, (extsFromSlice_take start b e n rest hd).2⟩
   | error f =>
     rw [hd] at h
     cases f with
